@@ -241,6 +241,17 @@ func (g *gen) signerOps() {
 
 var clockOffsets = []int64{-1e9, -2, -1, 0, 1, 2, 1e9}
 
+// extremeNows: clocks far from any token time, as decimal nanoseconds: the zero
+// time.Time, year 1 built with time.Unix, year 9999, time.Unix(1<<62, 0), and
+// the ends of the int64 nanosecond range (Time.Sub saturates from 2^63 ns on).
+var extremeNows = []string{
+	"-62135596800000000000 zero=1", "-62135596800000000000", "253402300799000000000",
+	"4611686018427387904000000000", "-9223372036854775808", "9223372036854775807",
+	"-5000000000000000000", "-7523372036854775809", "-7523372036854775807",
+}
+
+var extremeTimes = []int64{-1 << 63, 1<<63 - 1, -5e18, 5e18, 0}
+
 // reps calls f with the `rep=` suffixes to try at a boundary instant: at the
 // instant itself and one nanosecond either side every representation, elsewhere none.
 func reps(off int64, f func(suffix string)) {
@@ -357,6 +368,25 @@ func (g *gen) timeOps() {
 				g.add(fmt.Sprintf("ttoken k=%s now=%d %s rep=%d", hx.Hex(k), t, macsOf(k, le64(t)), r))
 			}
 		}
+		if i%3 == 0 {
+			// clocks centuries away from the token time, and token times at the ends of the range
+			chkX := func(m []byte, at string, ww int64) {
+				g.add(fmt.Sprintf("tcheck k=%s w=%d now=%s s=%s %s", hx.Hex(k), ww, at, hx.Hex(m), macsOf(k, dataPartHex(m))))
+				g.rep.Count("timetokens:extreme")
+			}
+			for _, at := range extremeNows {
+				for _, ww := range []int64{w, 0, 1<<63 - 1} {
+					chkX([]byte(tok), at, ww)
+				}
+			}
+			for _, tt := range extremeTimes {
+				xt := []byte(signer.New(k).SignHex(le64(tt)))
+				chkX(xt, fmt.Sprint(int64(1_700_000_000_000_000_000)), w)
+				chkX(xt, fmt.Sprint(tt), w)
+				chkX(xt, hx.Pick(g.r, extremeNows), w)
+				chkX(xt, hx.Pick(g.r, extremeNows), 0)
+			}
+		}
 		// a payload that is longer or shorter than a timestamp
 		for _, n := range []int{0, 7, 9, 16} {
 			b := append(le64(t), g.r.Bytes(8)...)[:n]
@@ -407,6 +437,13 @@ func (g *gen) timeOps() {
 			}
 		}
 		sfx = ""
+		for _, at := range extremeNows {
+			for _, ww := range []int64{w, 0} {
+				g.add(fmt.Sprintf("rsat pub=%s w=%d now=%s data=%s hash=%s sig=%s shas=%s:%s vs=%s:%s:%s:1",
+					hx.Hex([]byte(key.label)), ww, at, hx.Hex(data), hx.Hex(hash), hx.Hex(sig),
+					hx.Hex(data), hx.Hex(hash), hx.Hex([]byte(key.label)), hx.Hex(hash), hx.Hex(sig)))
+			}
+		}
 		chk("k"+fmt.Sprint((i+1)%3), t, data, hash, sig) // another key
 		long := append(append([]byte{}, data...), 7)
 		chk(key.label, t, long, hash, sig)
@@ -453,6 +490,13 @@ func (g *gen) timeOps() {
 			}
 		}
 		sfx = ""
+		for _, at := range extremeNows {
+			ct := "ct=."
+			if ok, d := s.Check(signed); ok {
+				ct = fmt.Sprintf("ct=%s:%d", hx.Hex(d), t)
+			}
+			g.add(fmt.Sprintf("chal k=%s now=%s w=%d t=%s %s %s", hx.Hex(k), at, w, hx.Hex(signed), macsOf(k, dataPart(signed)), ct))
+		}
 		chk(s.Sign([]byte(`{"N":"x"}`)), t)         // no timestamp
 		chk(s.Sign([]byte(`not json`)), t)          // MAC right, JSON wrong
 		chk(s.Sign([]byte(`{"T":{"Sec":"a"}}`)), t) // MAC right, JSON type error
@@ -616,6 +660,9 @@ func (g *gen) jwtHS() {
 			})
 		}
 		sfx = ""
+		for _, at := range extremeNows {
+			g.add(fmt.Sprintf("jwths k=%s kid=%s now=%s tok=%s %s", hx.Hex(k), hx.Hex([]byte(kid)), at, hx.Hex([]byte(tok)), jwtTables(tok, k)))
+		}
 		// header pinning: other kid at the verifier; other headers in the token, MAC right
 		chk(tok, k, kid+"x", mid)
 		chk(tok, append(append([]byte{}, k...), 0), kid, mid)
@@ -814,6 +861,9 @@ func (g *gen) jwtRS() {
 			chkSelf(tok, ks, exp*1e9+1, user, host)
 		} else {
 			chkSelf(tok, ks, mid, user, host)
+		}
+		for _, at := range extremeNows {
+			g.add(fmt.Sprintf("jwtrs now=%s %s tok=%s %s", at, keysArg(ks), hx.Hex([]byte(tok)), g.rsTables(tok, ks)))
 		}
 		// the identity handed out by the card is changed by the caller: the verifier's next look-up is unaffected
 		sfx = " poke=1"
